@@ -4,6 +4,10 @@ import glob, json, os, subprocess, sys, shutil, tempfile
 VERIF = os.path.dirname(os.path.dirname(os.path.abspath(__file__)))
 rows = []
 only = sys.argv[1:]
+rows_out = None
+if only[:1] == ["--rows"]:
+    rows_out = only[1]
+    only = only[2:]
 save = tempfile.mkdtemp(prefix="evid.")
 os.environ["VERIF_EVIDENCE"] = save          # evidence / replays of runs on a changed tree go to a scratch directory
 for d in sorted(glob.glob(VERIF + "/seeded/C*-*")):
@@ -42,7 +46,10 @@ for d in sorted(glob.glob(VERIF + "/seeded/C*-*")):
         shutil.rmtree(save + "/replays", ignore_errors=True)
     print(rows[-1]); sys.stdout.flush()
 shutil.rmtree(save, ignore_errors=True)
-if not only:
+if rows_out:
+    with open(rows_out, "w") as fh:
+        json.dump(rows, fh)
+if not only and not rows_out:
     with open(VERIF + "/seeded/RESULTS.md", "w") as fh:
         fh.write("# Seeded changes vs. the check of their own property (quick tier)\n\n")
         fh.write("replay a/b = exit code of `./check Cxx --replay <file>` with the change applied / on the unchanged tree (expected 1/0)\n\n")
